@@ -787,6 +787,17 @@ def t_block():
         all(x in cj for x in ('original_outputs = outputs', 'outputs = (outputs | self._required) - vector_valued', 'if inputs & block.inputs and outputs & block.outputs:'))
         and 'self._required = find_intermediate_inputs(blocks) if intermediate_inputs is None else intermediate_inputs' in cinit
         and all(x in fii for x in ('required = OrderedSet()', 'outmap = get_output_map(blocks)', 'for num, block in enumerate(blocks):', 'inputs = block.inputs', 'for i in inputs:', 'if i in outmap:', 'required.add(i)', 'return required')))
+    # objects derived from an argument are built afresh (C19): what a sparse Jacobian caches on first use, a steady-state container or a saved factorisation must not travel into (or be overwritten by) derived objects
+    def body(rel, q):
+        fn = find_def(rel, q)
+        return [ast.unparse(b) for b in fn.body if not (isinstance(b, ast.Expr) and isinstance(b.value, ast.Constant))]
+    sp = 'classes/sparse_jacobians.py'
+    facts['derived_objects_are_fresh'] = (
+        body(sp, 'SimpleSparse.T') == ['return SimpleSparse({(-i, m): x for (i, m), x in self.elements.items()})']
+        and body(sp, 'SimpleSparse.__mul__') == ['if not np.isscalar(a):\n    return NotImplemented', 'return SimpleSparse({im: a * x for im, x in self.elements.items()})']
+        and body(sp, 'SimpleSparse.__rmul__') == ['return self * a']
+        and body('classes/result_dict.py', 'ResultDict.__matmul__') == ['if isinstance(x, Bijection):\n    new = copy.deepcopy(self)\n    new.toplevel = x @ self.toplevel\n    return new\nelse:\n    return NotImplemented']
+        and body('classes/jacobian_dict.py', 'FactoredJacobianDict.remap') == ['if not x:\n    return self', 'newself = copy.copy(self)', 'newself.unknowns = x @ self.unknowns', 'newself.targets = x @ self.targets', 'return newself'])
     sn = find_def('blocks/block.py', 'Block.solve_impulse_nonlinear')
     src = ast.unparse(sn)
     loops = [n for n in sn.body if isinstance(n, ast.For)]
